@@ -214,12 +214,12 @@ func budgetFor(n int) time.Duration {
 }
 
 type c06Result struct {
-	Evals      int64             `json:"evals"`
-	Counters   map[string]int64  `json:"counters"`
-	Templates  []string          `json:"templates"`
-	Violations []core.Violation  `json:"violations"`
-	Ladder     []map[string]any  `json:"ladder,omitempty"`
-	Done       bool              `json:"done"`
+	Evals      int64            `json:"evals"`
+	Counters   map[string]int64 `json:"counters"`
+	Templates  []string         `json:"templates"`
+	Violations []core.Violation `json:"violations"`
+	Ladder     []map[string]any `json:"ladder,omitempty"`
+	Done       bool             `json:"done"`
 }
 
 // C06Child is the child-process entry: verifmon C06 --child <mode> <shard> <of> <tier> <seed> <out>.
@@ -430,6 +430,7 @@ func buildCLI(out string) error {
 	}
 	cmd := exec.Command(goBin, "build", "-o", out, "./cmd")
 	cmd.Dir = repoDir()
+	cmd.Env = append(os.Environ(), "GOFLAGS=-mod=mod") // never the harness's -modfile
 	b, err := cmd.CombinedOutput()
 	if err != nil {
 		return fmt.Errorf("%v: %s", err, b)
